@@ -1,5 +1,6 @@
 import CanvasModel.Driver
 import CanvasModel.C04
+import CanvasModel.C04.Spec
 import CanvasGen.CoreF
 import CanvasGen.StrokeF
 /-! Driver of C04: the generic kernels / skeleton of `CanvasModel.C04` executed at `Float`, with the
@@ -107,8 +108,44 @@ def handleKernel : List String → Option String
     pure (protoStr (offsetProto eqNF segs (cl == "1") (so == "1")))
   | _ => none
 
+def parseSegsR : Nat → List String → Option (List (Seg Float) × List String)
+  | 0, ts => some ([], ts)
+  | n + 1, ts => do
+    let (p0, ts) ← pt? ts
+    let (p1, ts) ← pt? ts
+    let (n0, ts) ← pt? ts
+    let (n1, ts) ← pt? ts
+    match ts with
+    | r0 :: r1 :: ts => do
+      let (rest, ts) ← parseSegsR n ts
+      pure (⟨p0, p1, n0, n1, ← fl? r0, ← fl? r1⟩ :: rest, ts)
+    | _ => none
+
+def parseSubs : Nat → List String → Option (List (SubPath Float))
+  | 0, _ => some []
+  | k + 1, cl :: n :: ts => do
+    let n ← n.toNat?
+    let (segs, ts) ← parseSegsR n ts
+    let rest ← parseSubs k ts
+    pure ((segs, cl == "1") :: rest)
+  | _, _ => none
+
+/-- `PROTOM <stroke> <k> { <closed> <n> seg… }`: caps, joins and contours of a whole path -/
+def handlePath : List String → Option String
+  | "PROTOM" :: stroke :: k :: ts => do
+    let k ← k.toNat?
+    let subs ← parseSubs k ts
+    let st := stroke == "1"
+    let ev := pathEvents eqNF subs st
+    pure s!"{(ev.filter Ev.isCap).length} {(ev.filter Ev.isJoin).length} {pathContours subs st}"
+  | "PROTOMC" :: _ :: k :: ts => do
+    let k ← k.toNat?
+    let subs ← parseSubs k ts
+    pure s!"{pathContours subs false}"
+  | _ => none
+
 def handle : List String → Option String
   | "L1" :: name :: args => (GenF.dispatchStroke name args) <|> (GenF.dispatchCore name args)
-  | ts => (handleKernel ts) <|> (Canvas.C04.handleRegion ts)
+  | ts => (handleKernel ts) <|> (handlePath ts) <|> (Canvas.C04.handleRegion ts) <|> (Canvas.C04.Spec.handle ts)
 
 def main : IO Unit := runDriver handle
